@@ -10,6 +10,13 @@ use tokio_util::sync::CancellationToken;
 
 use crate::init::setup_logger;
 
+/// Verification hook (feature `verif`, off by default): exposes the private report / exit-code
+/// routine so that a harness can run it on synthetic diagnostics. No behaviour.
+#[cfg(feature = "verif")]
+pub mod verif {
+    pub use crate::output::output_result;
+}
+
 pub async fn run_check(cmd_args: CmdArgs) -> Result<(), Box<dyn Error + Sync + Send>> {
     setup_logger(cmd_args.verbose);
 
